@@ -83,7 +83,7 @@ Theorem row_loop_rt qk h : forall cols left al mbs d0 dt r0 rt,
 Proof.
   induction cols as [|c rest IH]; intros left al mbs d0 dt r0 rt Hwf H0 Ht; destruct mbs as [|m mtl];
     cbn [wf_row] in Hwf; try contradiction.
-  - cbn [row_syn row_loop fst snd app] in *. exists d0, dt. repeat split; assumption.
+  - cbn [row_syn row_loop fst snd app] in *. exists d0, dt. split; [reflexivity|split; assumption].
   - destruct Hwf as (Hmh & Hsa & Hsl & Hres & Hrest).
     cbn [row_syn] in H0, Ht |- *. cbn [row_loop].
     set (mh := ms_hdr m) in *. set (is4 := mh_is4 mh) in *.
@@ -102,7 +102,7 @@ Proof.
       destruct IH as (d0' & dt' & E2 & S0' & St').
       { eapply wf_row_pix; [| |exact Hrest]; reflexivity. }
       { exact S1. } { exact Ht. }
-      fold pix. rewrite E2. exists d0', dt'. repeat split; assumption.
+      fold pix. rewrite E2. exists d0', dt'. split; [reflexivity|split; assumption].
     + destruct (Hres eq_refl) as (Hy2 & Hys & Hus & Hvs).
       destruct Hsa as (A1 & A2 & A3). destruct Hsl as (L1 & L2 & L3).
       set (res := res_of (seg_dq h (mh_seg mh)) is4 (ms_y2 m) (ms_ys m) (ms_us m) (ms_vs m)) in *.
@@ -122,7 +122,7 @@ Proof.
       destruct IH as (d0' & dt' & E2 & S0' & St').
       { eapply wf_row_pix; [| |exact Hrest]; reflexivity. }
       { exact S1. } { exact S3. }
-      fold pix. rewrite E2. exists d0', dt'. repeat split; assumption.
+      fold pix. rewrite E2. exists d0', dt'. split; [reflexivity|split; assumption].
 Qed.
 
 (** * all rows; token symbols of row r go to partition r mod n *)
@@ -168,10 +168,12 @@ Theorem rows_loop_rt qk h : forall rows mby cols d0 ds r0 (tails : nat -> list (
   (forall i, (i < length ds)%nat ->
      sync (nth i ds (bd_init [])) (part_syms n (Z.of_nat i) mby (snd (rows_syn qk h cols rows)) ++ tails i)) ->
   exists d0' ds', rows_loop qk h (length rows) mby cols d0 ds = (fst (fst (rows_syn qk h cols rows)), d0', ds') /\
-    sync d0' r0.
+    sync d0' r0 /\ length ds' = length ds /\
+    (forall i, (i < length ds)%nat -> sync (nth i ds' (bd_init [])) (tails i)).
 Proof.
   induction rows as [|mbs rtl IH]; intros mby cols d0 ds r0 tails Hwf Hmby Hne n H0 Hparts.
-  - cbn [rows_syn rows_loop length fst snd app] in *. exists d0, ds. split; [reflexivity|exact H0].
+  - cbn [rows_syn rows_loop length fst snd app part_syms] in *. exists d0, ds. split; [reflexivity|].
+    split; [exact H0|]. split; [reflexivity|]. intros i Hi. exact (Hparts i Hi).
   - cbn [wf_rows_syn] in Hwf. destruct Hwf as [Hrow Hrest].
     cbn [rows_syn] in H0, Hparts |- *. cbn [rows_loop length].
     destruct (row_syn qk h cols left0 None mbs) as [[[cols' out] s0] sT] eqn:Er. cbn [fst] in Hrest.
@@ -192,7 +194,7 @@ Proof.
     fold n. fold pi. rewrite E1.
     specialize (IH (mby + 1) cols' d1 (set_nth pi dt1 ds) r0 tails Hrest ltac:(lia)).
     rewrite Ers in IH. cbn [fst snd] in IH. rewrite set_nth_length in IH. fold n in IH.
-    destruct IH as (d0' & ds' & E2 & S2).
+    destruct IH as (d0' & ds' & E2 & S2 & L2 & P2).
     + intros Hc. apply (f_equal (@length _)) in Hc. rewrite set_nth_length in Hc. destruct ds; [congruence|discriminate Hc].
     + exact S1.
     + intros i Hi. rewrite nth_set_nth by exact Hpi.
@@ -201,7 +203,8 @@ Proof.
       assert (Eq : mby mod n =? Z.of_nat i = false).
       { apply Z.eqb_neq. intros Hc. apply Hne2. unfold pi. rewrite Hc. rewrite Nat2Z.id. reflexivity. }
       rewrite Eq in Hq. cbn [app] in Hq. exact Hq.
-    + rewrite E2. exists d0', ds'. split; [reflexivity|exact S2].
+    + rewrite E2. exists d0', ds'. split; [reflexivity|]. split; [exact S2|].
+      split; [exact L2|exact P2].
 Qed.
 
 (** * byte layout: Vp8Syntax.parse_layout / token_parts read back ConformVp8Hdr.assemble *)
@@ -306,10 +309,11 @@ Definition wf_frame_syn (qk : quirks) (s : frame_syn) : Prop :=
   wf_rows_syn qk h (fs_cols s) (fs_rows s) /\
   probs_ok (fst (frame_syms qk s)) /\ Forall probs_ok (snd (frame_syms qk s)).
 
-Theorem vp8_emit_decode qk s bs : wf_frame_syn qk s -> emit_key_frame qk s = Ok bs ->
+Lemma vp8_emit_decode_full qk s bs : wf_frame_syn qk s -> emit_key_frame qk s = Ok bs ->
   exists r, decode_gen qk bs = Ok r /\
     dc_w r = fh_w (fs_hdr s) /\ dc_h r = fh_h (fs_hdr s) /\ dc_hdr r = fs_hdr s /\
-    dc_unfiltered r = fst (reconstruct qk s) /\ dc_filtered r = snd (reconstruct qk s).
+    dc_unfiltered r = fst (reconstruct qk s) /\ dc_filtered r = snd (reconstruct qk s) /\
+    dc_past_end r = false.
 Proof.
   intros (Hhdr & Hw & Hh & Hxs & Hys & Hlen & Hrows & Hok0 & Hoks) Hemit.
   unfold emit_key_frame, frame_syms in *.
@@ -344,7 +348,7 @@ Proof.
                 Hrows ltac:(lia)) as Hloop.
   rewrite Ers in Hloop. cbn [fst snd] in Hloop.
   rewrite !map_length, Hlsps, Z2Nat.id in Hloop by lia.
-  destruct Hloop as (d0' & ds' & Eloop & _).
+  destruct Hloop as (d0' & ds' & Eloop & Sd0 & Lds & Sds).
   { intros Hc. apply (f_equal (@length _)) in Hc. rewrite !map_length, Hlsps in Hc. cbn [length] in Hc. lia. }
   { rewrite app_nil_r. exact S1. }
   { intros i Hi. rewrite app_nil_r.
@@ -357,6 +361,32 @@ Proof.
     rewrite Ei in Si. rewrite Ei. exact Si. }
   unfold fs_cols in Eloop. fold h in Eloop.
   rewrite <- Hlen. rewrite Eloop.
-  eexists. split; [reflexivity|]. cbn [dc_w dc_h dc_hdr dc_unfiltered dc_filtered].
-  unfold reconstruct. fold h. rewrite Ers. cbn [fst snd]. repeat split; reflexivity.
+  eexists. split; [reflexivity|]. cbn [dc_w dc_h dc_hdr dc_unfiltered dc_filtered dc_past_end].
+  unfold reconstruct. fold h. rewrite Ers. cbn [fst snd].
+  split; [reflexivity|]. split; [reflexivity|]. split; [reflexivity|]. split; [reflexivity|]. split; [reflexivity|].
+  (* no decoder has looked beyond its partition *)
+  rewrite (sync_nil_past d0' Sd0). cbn [orb].
+  destruct (existsb bd_past ds') eqn:Ex; [|reflexivity]. exfalso.
+  apply existsb_exists in Ex. destruct Ex as (x & Hin & Hx).
+  destruct (In_nth _ _ (bd_init []) Hin) as (i & Hi & Hnth).
+  rewrite Lds in Hi. specialize (Sds i Hi). rewrite Hnth in Sds.
+  rewrite (sync_nil_past x Sds) in Hx. discriminate Hx.
+Qed.
+
+Theorem vp8_emit_decode qk s bs : wf_frame_syn qk s -> emit_key_frame qk s = Ok bs ->
+  exists r, decode_gen qk bs = Ok r /\
+    dc_w r = fh_w (fs_hdr s) /\ dc_h r = fh_h (fs_hdr s) /\ dc_hdr r = fs_hdr s /\
+    dc_unfiltered r = fst (reconstruct qk s) /\ dc_filtered r = snd (reconstruct qk s).
+Proof.
+  intros Hwf He. destruct (vp8_emit_decode_full qk s bs Hwf He) as (r & H1 & H2 & H3 & H4 & H5 & H6 & _).
+  exists r. repeat split; assumption.
+Qed.
+
+(** The emitted frame never makes the specification decoder read a bool from beyond the end of a
+    partition: BoolWriter.Finish pads at least 8 bits beyond the last symbol's interval. *)
+Theorem emit_no_past_end qk s bs : wf_frame_syn qk s -> emit_key_frame qk s = Ok bs ->
+  exists r, decode_gen qk bs = Ok r /\ dc_past_end r = false.
+Proof.
+  intros Hwf He. destruct (vp8_emit_decode_full qk s bs Hwf He) as (r & H1 & _ & _ & _ & _ & _ & H7).
+  exists r. split; assumption.
 Qed.
